@@ -607,11 +607,6 @@ structure Rel (s : SpecSt) (m : MState) : Prop where
   pins : pinsAt m.log = s.pinset
   running : m.running = s.running
   departed : m.departed = s.departed
-  wiped : ∀ j, j ∈ m.wiped → j ∉ cfgIds (cfgAt m.log)
-
-def failedLeave : Op → Bool
-  | .leave _ .err => true
-  | _ => false
 
 theorem add_ids (log : List Entry) (j : Nat) :
     (rwAddPeer j (cfgAt log) true).1 = .ok ∧
